@@ -6,3 +6,4 @@ pub mod refmodel;
 pub mod seq;
 pub mod shipped;
 pub mod toy;
+pub mod toycurve;
